@@ -13,7 +13,7 @@ stdlib + the tree under test only.
     python tools/pegdump.py GRAMMAR.tx [--input FILE] [--memo] [-o key=value ...]
 
 API (used by tools/impl/*.py runners and tools/props/*.py checks):
-    dump_parser(parser)          -> Dump (nodes, top, comments, config, oracles)
+    dump_parser(parser)          -> Dump (nodes, top, comments, config, oracles, cache_alias)
     dump_metamodel(mm)           -> Dump of mm._parser_blueprint
     Dump.coq_grammar()/coq_config()/to_json()
     Dump.oracle_table(text)      -> [[oid, pos, len], ...]
@@ -57,6 +57,8 @@ class Dump:
         self.objs = []           # python nodes by nid       (only on the dumping side)
         self.oracles = []        # oid -> ("re", pattern, flags) | ("istr", text)
         self._regex = []         # oid -> compiled regex or None (dumping side)
+        self.cache_alias = []    # groups of memoizable node ids whose arpeggio _result_cache is ONE dict
+                                 # object (the Coq model gives every node its own cache; must be empty)
 
     # ---------------------------------------------------------------- walking
     def _walk(self, n):
@@ -142,7 +144,8 @@ class Dump:
     # ---------------------------------------------------------------- output
     def to_json(self):
         return {"nodes": self.nodes, "top": self.top, "comments": self.comments, "skipws": self.skipws,
-                "ws": self.ws, "memoization": self.memoization, "oracles": self.oracles}
+                "ws": self.ws, "memoization": self.memoization, "oracles": self.oracles,
+                "cache_alias": self.cache_alias}
 
     def coq_grammar(self):
         return coq_grammar(self.to_json())
@@ -156,6 +159,7 @@ def from_json(j):
     d.nodes, d.top, d.comments = j["nodes"], j["top"], j["comments"]
     d.skipws, d.ws, d.memoization, d.oracles = j["skipws"], j["ws"], j.get("memoization", False), j["oracles"]
     d._regex = [None] * len(d.oracles)
+    d.cache_alias = j.get("cache_alias", [])
     return d
 
 
@@ -172,6 +176,18 @@ def dump_parser(parser):
         raise Unsupported("reduce_tree / lexical rules are not modelled")
     d.skipws, d.ws = parser.skipws, parser.ws
     d.memoization = bool(parser.memoization)
+    # packrat caches: the model keys the cache by (node id, position), i.e. one table per node.
+    # Two distinct memoizable expressions sharing one _result_cache dict (e.g. a shallow copy of an
+    # expression) would read each other's entries; record it so that the checks can report it.
+    by_cache = {}
+    for nid, n in enumerate(d.objs):
+        if d.nodes[nid]["kind"] in ("KStr", "KRegex", "KEOF"):
+            continue
+        c = getattr(n, "_result_cache", None)
+        if not isinstance(c, dict):
+            raise Unsupported("expression without a _result_cache dict")
+        by_cache.setdefault(id(c), []).append(nid)
+    d.cache_alias = sorted(g for g in by_cache.values() if len(g) > 1)
     return d
 
 
